@@ -51,10 +51,11 @@ type ParseCase struct {
 }
 
 type ValidCase struct {
-	Schema string `json:"schema"`
-	Doc    string `json:"doc"`
-	Class  string `json:"violation"`
-	Pos    int    `json:"expected_position"`
+	Schema string      `json:"schema"`
+	Types  [][2]string `json:"types,omitempty"`
+	Doc    string      `json:"doc"`
+	Class  string      `json:"violation"`
+	Pos    int         `json:"expected_position"`
 }
 
 func init() {
@@ -444,7 +445,11 @@ func TestParsePositionsOfTheOtherScanners(t *testing.T) {
 // (a) validation positions: one planted violation at a printer-known offset
 
 func checkValid(t run.TB, c ValidCase) {
-	s, _ := lib.Build(lib.Spec{Schema: c.Schema})
+	sp := lib.Spec{Schema: c.Schema}
+	for _, ty := range c.Types {
+		sp.Types = append(sp.Types, lib.Named{Name: ty[0], Text: ty[1]})
+	}
+	s, _ := lib.Build(sp)
 	if r := lib.Check(s); !r.OK {
 		return
 	}
@@ -617,6 +622,81 @@ func TestValidationPositions(t *testing.T) {
 		checkValid(t, c)
 		run.Eval(chkValid, s.depth >= 1, schema, string(text))
 		run.Label("planted:" + class)
+		run.Sample(chkValid, c)
+	})
+}
+
+// TestUnknownKeyUnderAlternatives: the position takes one of several object types, the document is
+// an object of one of them plus a key that none of them knows. The offending thing is that key -
+// no alternative ever looks at its value.
+func TestUnknownKeyUnderAlternatives(t *testing.T) {
+	run.SkipIfReplaying(t)
+	defer run.Done(t, chkValid)
+	rapid.Check(t, func(t *rapid.T) {
+		nt := rapid.IntRange(2, 3).Draw(t, "ntypes")
+		keys := []string{"kind", "name", "lives", "barks", "id"}
+		var types [][2]string
+		var names []string
+		var first []string // the properties of the first type, in order
+		for i := 0; i < nt; i++ {
+			name := fmt.Sprintf("@t%d", i)
+			names = append(names, name)
+			ks := rapid.SliceOfNDistinct(rapid.SampledFrom(keys), 1, 3, rapid.ID[string]).Draw(t, "keys")
+			txt := "{"
+			for j, k := range ks {
+				if j > 0 {
+					txt += ","
+				}
+				txt += fmt.Sprintf("\n  %q: %d", k, j+1)
+			}
+			txt += "\n}"
+			if rapid.IntRange(0, 2).Draw(t, "closed") == 0 {
+				txt = strings.Replace(txt, "{", "{ // {additionalProperties: false}", 1)
+			}
+			types = append(types, [2]string{name, txt})
+			if i == 0 {
+				first = ks
+			}
+		}
+		list := strings.Join(names, " | ")
+		at := rapid.IntRange(0, len(first)).Draw(t, "at")
+		ws := rapid.SampledFrom([]string{"", " ", "\n  ", "\t"}).Draw(t, "ws")
+		obj := "{" + ws
+		pos := -1
+		n := 0
+		for j := 0; j <= len(first); j++ {
+			if j == at {
+				if n > 0 {
+					obj += "," + ws
+				}
+				pos = len(obj)
+				obj += `"zz_unknown":` + ws + rapid.SampledFrom([]string{"9", "{}", "[1]", `"x"`, "null"}).Draw(t, "val")
+				n++
+			}
+			if j < len(first) {
+				if n > 0 {
+					obj += "," + ws
+				}
+				obj += fmt.Sprintf("%q:%s%d", first[j], ws, j+1)
+				n++
+			}
+		}
+		obj += ws + "}"
+		var schema, doc string
+		switch rapid.IntRange(0, 2).Draw(t, "host") {
+		case 0:
+			schema, doc = list, obj
+		case 1:
+			schema, doc = "{\n  \"pet\": "+list+"\n}", `{"pet": `+obj+"}"
+			pos += len(`{"pet": `)
+		default:
+			schema, doc = "[\n  "+list+"\n]", "["+ws+obj+"]"
+			pos += 1 + len(ws)
+		}
+		c := ValidCase{Schema: schema, Types: types, Doc: doc, Class: "unknown-key-under-alternatives", Pos: pos}
+		checkValid(t, c)
+		run.Eval(chkValid, true, schema, doc)
+		run.Label("planted:" + c.Class)
 		run.Sample(chkValid, c)
 	})
 }
